@@ -7,7 +7,8 @@ use internal::IResult;
 use nom::bytes::complete::{take_while1, take_while_m_n};
 use nom::combinator::map;
 use nom::error::context;
-use nom::multi::many1;
+use nom::character::complete::char;
+use nom::multi::separated_list1;
 use std::fmt;
 
 /// Ice options attribute (`a=ice-options`)
@@ -26,9 +27,11 @@ impl IceOptions {
         context(
             "parsing ice-options",
             map(
-                many1(map(take_while1(ice_char), |option| {
-                    BytesStr::from_parse(src, option)
-                })),
+                // options are separated by a single space
+                separated_list1(
+                    char(' '),
+                    map(take_while1(ice_char), |option| BytesStr::from_parse(src, option)),
+                ),
                 |options| Self { options },
             ),
         )(i)
@@ -43,7 +46,13 @@ impl fmt::Display for IceOptions {
 
         write!(f, "a=ice-options:")?;
 
-        for option in &self.options {
+        let mut options = self.options.iter();
+
+        if let Some(option) = options.next() {
+            write!(f, "{}", option)?;
+        }
+
+        for option in options {
             write!(f, " {}", option)?;
         }
 
